@@ -76,7 +76,7 @@ def canon(P, case, obs):
 
 def judge(P, case, obs):
     """The property's Spec oracle, preceded by the observation every harness shares:
-    [-2] = the harness watchdog ended the process on this case (lib/vp/rustrun.py)."""
+    rustrun.HANG = the harness watchdog ended the process on this case (lib/vp/rustrun.py)."""
     if _marked(obs, rustrun.HANG):
         return WEDGED
     if _marked(obs, rustrun.SKIPPED):
